@@ -1003,7 +1003,7 @@ Section Refine.
     - (* GSlice *)
       intros t b Hs Ha Hb Hk.
       destruct (wt_slice_inv _ _ _ Ha) as [Hany [Hptr [a0 [et [Hpt Hwl]]]]].
-      pose proof (payload_supported _ _ _ Hc Hs Hpt) as Hse. simpl in Hse.
+      pose proof (payload_supported _ _ _ Hc Hs Hpt) as Hse. simpl in Hse. apply andb_true_iff in Hse. destruct Hse as [_ Hse].
       rewrite (eqc_arr _ _ _ _ _ _ _ Hany Hpt), (needs_false _ Hptr). cbn [andb].
       destruct (cf_arr _ _ _ _ _ Hany Hptr Hpt Hb) as [-> | [l' [-> Hwl']]].
       + destruct l; reflexivity.
@@ -1128,7 +1128,7 @@ Section Trans.
     - (* GSlice *)
       intros t b c Hs Ha Hb Hc' E1 E2.
       destruct (wt_slice_inv _ _ _ Ha) as [Hany [Hptr [a0 [et [Hpt Hwl]]]]].
-      pose proof (payload_supported _ _ _ Hc Hs Hpt) as Hse. simpl in Hse.
+      pose proof (payload_supported _ _ _ Hc Hs Hpt) as Hse. simpl in Hse. apply andb_true_iff in Hse. destruct Hse as [_ Hse].
       destruct (cf_arr _ _ _ _ _ Hany Hptr Hpt Hb) as [-> | [l' [-> Hwl']]];
         destruct (cf_arr _ _ _ _ _ Hany Hptr Hpt Hc') as [-> | [l'' [-> Hwl'']]].
       + exact E1.
@@ -1396,7 +1396,7 @@ Section Enc.
       destruct b as [| | | | | | |l'|l'| |]; try (destruct l; discriminate).
       + rewrite (nilish_enc' _ _ _ E). reflexivity.
       + destruct (wt_slice_inv _ _ _ Ha) as [Hany [Hptr [a0 [et [Hpt Hwl]]]]].
-        pose proof (payload_supported _ _ _ Hc Hs Hpt) as Hse. simpl in Hse.
+        pose proof (payload_supported _ _ _ Hc Hs Hpt) as Hse. simpl in Hse. apply andb_true_iff in Hse. destruct Hse as [_ Hse].
         destruct (cf_arr _ _ _ _ _ Hany Hptr Hpt Hb) as [X | [l2 [X Hwl']]]; inversion X; subst l2.
         rewrite vsim_slice in E. simpl. rewrite (payload_or_self_eq _ _ Hpt).
         unfold N at 1 2. rewrite !erase_arr, !map_map. f_equal. f_equal.
